@@ -1177,7 +1177,40 @@ def solve_obligation(o, timeout_ms=10000, want_model=True):
         o.smt2 = s.to_smt2()
         if _deaccess_retry(o, timeout_ms):
             o.time = time.time() - t0
+        elif _refute_without_definitional_axioms(o, min(timeout_ms, 10000), want_model):
+            o.time = time.time() - t0
     return o
+
+
+def _refute_without_definitional_axioms(o, timeout_ms, want_model):
+    """z3 rarely finds a model when quantified facts are present.  The engine's own quantified *axioms* (definitions of helper
+    sequences: range(n), characters of a string, keys of a set ...) only constrain fresh helper constants; a model of the query
+    without them is taken as a refutation (reported with its note; the driver still replays it natively where it can and
+    otherwise reports it only for clauses of the committed baseline).  Quantified facts of the path condition itself
+    (invariants, preconditions, summaries) are kept."""
+    n = getattr(o, 'n_axioms', 0)
+    if not n:
+        return False
+    kept = [f for j, f in enumerate(o.pc) if not (j < n and _has_quant(f))]
+    if len(kept) == len(o.pc):
+        return False
+    s = z3.Solver()
+    s.set('timeout', timeout_ms)
+    s.add(*kept)
+    s.add(z3.Not(o.goal))
+    if s.check() != z3.sat:
+        return False
+    o.status = 'refuted'
+    o.note = 'counter-model of the query without the engine-generated quantified definitions of helper sequences'
+    if want_model:
+        m = s.model()
+        o.model = {}
+        for name, term in o.inputs.items():
+            try:
+                o.model[name] = val_to_py(m.eval(term, model_completion=True))
+            except Exception as e:
+                o.model[name] = f'<unprintable: {e}>'
+    return True
 
 
 def candidate_model(o, timeout_ms=10000):
